@@ -236,7 +236,9 @@ CHECKS = [
           "at or after warm-up; persistent = time integral / average to the replication end) over generated models, non-zero "
           "replication start times included.",
   "design_ref": "DESIGN.md section 6 C11 and Part II section 15",
-  "note": COMMON_NOTE + " NOT covered by proof (stated scope): listen_to and construction with an initial producer; Quantity-valued "
+  "note": COMMON_NOTE + " listen_to of the four simulation statistics and construction with an initial producer AND event type are "
+          "verified too (a producer given alone is refused by listen_to with a TypeError -- the documented default type is not "
+          "applied; outside the statement, noted in DESIGN). NOT covered by proof (stated scope): Quantity-valued "
           "clocks / timestamps; rejection conditions of the timestamped notify are bounded from above (may_raise), only the "
           "unchanged-on-rejection frame is proved; that the simulator schedules the warm-up with maximum priority and fires END_REPLICATION after setting "
           "the clock (C06/C04 territory). Assumed (CB-stat): listeners of a statistic's own events do not call that statistic's "
